@@ -225,15 +225,32 @@ func r7mixColumnBits(c *core.Ctx, R string, fn *ssa.Function, name, box string, 
 func r7lfsrX(c *core.Ctx) {
 	const R = "R7.lfsr"
 	S := func(i int) string { return fmt.Sprintf("global:%s.lfsr.s[%d]", pSnow, i) }
+	clk := snowClockFns(c)
 	for _, t := range []struct {
 		name  string
 		withF bool
 	}{{"lfsrInitialisationMode", true}, {"lfsrKeystreamMode", false}} {
-		fn := mustFunc(c, pSnow, t.name)
+		// the function is found by its role (c07roles.go); the obligation keeps the reference tree's name
+		fn := clk.init
+		if !t.withF {
+			fn = clk.ks
+		}
+		if fn == nil {
+			c.SoftUndecided("R7.lfsr: the %s LFSR clock was not found by its role (the function InitSnow3g / GenerateKeystream calls to step the register)", map[bool]string{true: "initialisation-mode", false: "keystream-mode"}[t.withF])
+			continue
+		}
 		key := "snow3g." + t.name
 		ex := core.NewExec()
 		ex.Enter = keepExcept("mulAlpha", "divAlpha")
-		outs, err := ex.Run(fn, core.DefaultArgs(fn), nil)
+		args := core.DefaultArgs(fn)
+		if !t.withF && len(fn.Params) == 1 {
+			if !clk.ksZeroArg {
+				c.SoftUndecided("R7.lfsr: the keystream-mode clock %s takes a parameter that GenerateKeystream does not set to the constant 0", fn.Name())
+				continue
+			}
+			args[0] = core.AVal{K: core.AInt, Bits: core.ConstBits(0, 32)}
+		}
+		outs, err := ex.Run(fn, args, nil)
 		if err != nil || len(outs) != 1 || len(ex.Unsound) > 0 {
 			c.SoftUndecided("R7.lfsr: %s could not be evaluated to one final state (%v, %d outcomes, %v)", t.name, err, len(outs), ex.Unsound)
 			continue
@@ -344,6 +361,13 @@ func r7initX(c *core.Ctx) {
 	// the clocks are summarised: clockFsm returns F#n and rewrites the FSM, the LFSR clock rewrites all cells
 	ex := core.NewExec()
 	nClk, nLfsr := 0, 0
+	clkInit, clkKs := pSnow+".lfsrInitialisationMode", pSnow+".lfsrKeystreamMode"
+	if ck := snowClockFns(c); ck.init != nil {
+		clkInit = core.FuncName(ck.init)
+		if ck.ks != nil {
+			clkKs = core.FuncName(ck.ks)
+		}
+	}
 	ex.OnCall = func(ev *core.AEvent, m *core.AMem) (core.AVal, bool) {
 		switch ev.Callee {
 		case pSnow + ".clockFsm":
@@ -352,7 +376,7 @@ func r7initX(c *core.Ctx) {
 				m.Store(RR(i), core.ArgBits(fmt.Sprintf("R%d@%d", i, nClk), 32, 32), nil)
 			}
 			return core.ArgBits(fmt.Sprintf("F@%d", nClk), 32, 32), true
-		case pSnow + ".lfsrInitialisationMode", pSnow + ".lfsrKeystreamMode":
+		case clkInit, clkKs:
 			nLfsr++
 			for i := 0; i < 16; i++ {
 				m.Store(S(i), core.ArgBits(fmt.Sprintf("s%d@%d", i, nLfsr), 32, 32), nil)
@@ -406,7 +430,7 @@ func r7initX(c *core.Ctx) {
 	detail := fmt.Sprintf("%d clock calls", len(tr))
 	for k := 0; k < len(tr) && ok32; k += 2 {
 		a, b := tr[k], tr[k+1]
-		if a.Callee != pSnow+".clockFsm" || b.Callee != pSnow+".lfsrInitialisationMode" || len(a.Args) != 2 || len(b.Args) != 1 {
+		if a.Callee != pSnow+".clockFsm" || b.Callee != clkInit || len(a.Args) != 2 || len(b.Args) != 1 {
 			ok32, detail = false, fmt.Sprintf("calls %d/%d are %s, %s", k, k+1, shortName(a.Callee), shortName(b.Callee))
 			break
 		}
